@@ -64,6 +64,8 @@ class Group:
     clause_note: str = ''            # what the contract says, for the evidence samples
     tier: str = 'quick'              # 'quick' groups run in both tiers, 'thorough' only in thorough
     two_engines: bool = False
+    fallback_unwind: int = 0         # if >0: when only auxiliary (invariant/frame) obligations fail, re-check the contract on the
+                                     # loop-unwound code for small inputs (replay.small_define) to look for a real postcondition failure
     # results
     result: Dict[str, Any] = field(default_factory=dict)
 
@@ -90,7 +92,7 @@ def run(cmd, timeout, cwd=None):
         return None, (e.stdout or b'').decode('utf-8', 'replace'), 'TIMEOUT', time.time() - t0
 
 
-def compile_group(ctx, g: Group, extra_defines=(), suffix=''):
+def compile_group(ctx, g: Group, extra_defines=(), suffix='', no_loop_contracts=False):
     """goto-cc + goto-instrument. Returns path of the instrumented binary. Raises Undecided on tool failure."""
     d = os.path.join(ctx.build_dir, 'g_' + re.sub(r'[^A-Za-z0-9_.-]', '_', g.name) + ('_be' if g.big_endian else '') + suffix)
     os.makedirs(d, exist_ok=True)
@@ -111,7 +113,7 @@ def compile_group(ctx, g: Group, extra_defines=(), suffix=''):
             cmd += ['--enforce-contract-rec' if g.rec else '--enforce-contract', g.enforce]
         for r in g.replace:
             cmd += ['--replace-call-with-contract', r]
-        if g.loops:
+        if g.loops and not no_loop_contracts:
             cmd += ['--apply-loop-contracts']
         cmd += [a, b]
         rc, out, err, _ = run(cmd, 600)
@@ -364,17 +366,47 @@ def verify_group(ctx, g: Group):
             if 'disagree' in str(ex):
                 raise
             g.result['second_engine'] = 'none answered'
+    if failed and not any(o['class'] == 'primary' for o in failed) and g.fallback_unwind and g.replay is not None and g.replay.small_define:
+        # Only invariant/frame obligations fail: the proof does not go through, which is not yet a violation.  Bounded
+        # stand-in (labelled as such): enforce the same contract on the code with its loops unwound, inputs restricted to
+        # small sizes; a postcondition that fails there is a concrete violation with a replayable input.
+        try:
+            saved = {k: g.result.get(k) for k in ('goto_cc', 'goto_instrument', 'binary')}
+            b3 = compile_group(ctx, g, [g.replay.small_define], '_unwound', no_loop_contracts=True)
+            g.result.update(saved)
+            g2 = Group(**{**{f: getattr(g, f) for f in ('name', 'harness', 'entry', 'function', 'checks', 'object_bits', 'first', 'stage1')},
+                          'cbmc_flags': list(g.cbmc_flags) + ['--unwind', str(g.fallback_unwind), '--unwinding-assertions'], 'timeout': max(g.timeout, 180)})
+            e5, (res5, st5, _), dt5, log5, raw5 = portfolio(g2, b3, engines=['minisat', 'cadical'])
+            f5 = [r for r in res5 if r['status'] == 'FAILURE' and classify(r) == 'primary' and 'unwind' not in r['property']]
+            if f5:
+                sl = f5[0].get('sourceLocation', {})
+                o = {'name': f5[0]['property'], 'description': f5[0].get('description', '') + ' [found on the loop-unwound code, unwind %d, small inputs]' % g.fallback_unwind,
+                     'status': 'FAILURE', 'class': 'primary', 'file': sl.get('file', ''), 'line': sl.get('line', ''), 'function': sl.get('function', '')}
+                failed.append(o)
+                g.result['failed'] = failed
+                g.result['bounded_fallback'] = 'postcondition fails on the unwound code'
+                binary = b3
+                g = g    # keep group; the trace below is taken from the unwound binary
+                g.result['fallback_flags'] = g2.cbmc_flags
+        except Undecided as ex:
+            g.result['bounded_fallback'] = 'undecided: %s' % str(ex)[:200]
     if failed:
         # get a counterexample trace for the first failed primary obligation (else first aux)
         prim = [o for o in failed if o['class'] == 'primary'] or failed
         try:
-            e3, (res3, st3, _), dt3, log3, raw3 = portfolio(g, binary, trace=True, prop=prim[0]['name'],
-                                                           engines=[engine], timeout=max(g.timeout, 60))
+            gt = g
+            if g.result.get('fallback_flags'):
+                import copy as _copy
+                gt = _copy.copy(g)
+                gt.cbmc_flags = g.result['fallback_flags']
+            e3, (res3, st3, _), dt3, log3, raw3 = portfolio(gt, binary, trace=True, prop=prim[0]['name'],
+                                                           engines=[engine] if not g.result.get('fallback_flags') else ['minisat', 'cadical'],
+                                                           timeout=max(g.timeout, 60))
             g.result['trace_inputs'] = trace_inputs(res3, prim[0]['name'])
             g.result['trace_property'] = prim[0]['name']
         except Undecided:
             g.result['trace_inputs'] = None
-        if g.replay is not None and g.replay.small_define:
+        if g.replay is not None and g.replay.small_define and not g.result.get('fallback_flags'):
             # ask again for a counterexample on small sizes so that it can be replayed natively
             try:
                 saved = dict(g.result)
